@@ -67,13 +67,23 @@ def content_st(tier, big=True):
 def eq_case(draw, tier):
     a = draw(content_st(tier))
     rel, b = draw(related_st(a))
-    return {'x': draw(operand_st(a)), 'y': draw(operand_st(b)), 'rel': rel}
+    x, y = draw(operand_st(a)), draw(operand_st(b))
+    if rel == 'equal' and draw(st.booleans()):
+        y['route'], y['salt'] = x['route'], x['salt']   # same source (same file for file routes)
+    # optionally flip one bit of a mutable operand in place after construction (length-preserving history)
+    flip = draw(st.integers(0, max(len(a) - 1, 0))) if len(a) and draw(st.integers(0, 2)) == 0 else None
+    return {'x': x, 'y': y, 'rel': rel, 'flip': flip}
 
 
 def run_eq(case):
     with files.TempDir() as tmp:
         x, y = build(case['x'], tmp), build(case['y'], tmp)
         a, b = case['x']['bits'], case['y']['bits']
+        flip = case.get('flip')
+        if flip is not None and case['x']['cls'] in MUTABLE and flip < len(a):
+            x.invert(flip)
+            a = a[:flip] + ('1' if a[flip] == '0' else '0') + a[flip + 1:]
+            require(x.bin == a, 'invert(i) did not flip exactly bit i')
         exp = a == b
         for l, r, name in ((x, y, 'x==y'), (y, x, 'y==x')):
             got = attempt(lambda: l == r)
@@ -231,10 +241,10 @@ def run_triple(case):
 
 
 SUBCHECKS = [
-    Sub('C13.eq_model', run_eq, strategy=eq_case, examples={'quick': 10000, 'thorough': 150000}),
-    Sub('C13.eq_promotable', run_promo, strategy=promo_case, examples={'quick': 8000, 'thorough': 100000}),
-    Sub('C13.eq_nonpromotable', run_nonpromo, strategy=nonpromo_case, examples={'quick': 3000, 'thorough': 30000}),
-    Sub('C13.hash_consistent', run_hash, strategy=hash_case, examples={'quick': 8000, 'thorough': 100000}),
-    Sub('C13.unhashable', run_unhash, strategy=unhash_case, examples={'quick': 600, 'thorough': 5000}),
-    Sub('C13.triples', run_triple, strategy=triple_case, examples={'quick': 5000, 'thorough': 60000}),
+    Sub('C13.eq_model', run_eq, strategy=eq_case, ambient=('bytealigned',), examples={'quick': 10000, 'thorough': 150000}),
+    Sub('C13.eq_promotable', run_promo, strategy=promo_case, ambient=('bytealigned',), examples={'quick': 8000, 'thorough': 100000}),
+    Sub('C13.eq_nonpromotable', run_nonpromo, strategy=nonpromo_case, ambient=('bytealigned',), examples={'quick': 3000, 'thorough': 30000}),
+    Sub('C13.hash_consistent', run_hash, strategy=hash_case, ambient=('bytealigned',), examples={'quick': 8000, 'thorough': 100000}),
+    Sub('C13.unhashable', run_unhash, strategy=unhash_case, ambient=('bytealigned',), examples={'quick': 600, 'thorough': 5000}),
+    Sub('C13.triples', run_triple, strategy=triple_case, ambient=('bytealigned',), examples={'quick': 5000, 'thorough': 60000}),
 ]
